@@ -1084,7 +1084,7 @@ def random_cases(ctx, count):
 
 def extra_modules():
     mods = []
-    for m in ("C12Agg", "C12Window"):
+    for m in ("C12Agg", "C12Window", "C12Graph"):
         if os.path.exists(os.path.join(common.LEAN_DIR, "StreamzVerif", "Props", m + ".lean")):
             mods.append("StreamzVerif.Props." + m)
     return mods
